@@ -222,10 +222,12 @@ class Bests(Part):
             alg.options['max_population_size'] = n
             pools = [absx.monotone_map(rng, rng.randint(3, 6)) for _ in range(m)]
             trace = []
+            vpool = [[rng.random() * 4, rng.random() * 4] for _ in range(rng.choice([1, 2, 3, 1000]))]
             for g in range(case["gens"]):
                 swarm = []
                 for k in range(n):
-                    ind = Individual([rng.random() * 4, rng.random() * 4])
+                    # particles may sit on the same design vector with different costs (noisy / stateful objectives)
+                    ind = Individual(list(rng.choice(vpool)))
                     ind.costs_signed = [rng.choice(p) for p in pools] + [rng.random() < 0.15]
                     ind.costs = list(ind.costs_signed[:-1])
                     ind.features.update({'dominate': [], 'crowding_distance': 0, 'domination_counter': 0, 'front_number': 0})
